@@ -1,5 +1,7 @@
 import WgslVerif.Check.Basic
 import WgslVerif.Check.C11
+import WgslVerif.Check.C03
+import WgslVerif.Check.C20
 /-
 Driver: reads `(case …)` lines from stdin (written by harness `dump`), prints one line per
 (property, run):   V|<prop>|<case id>|<run#>|<corr>|<spec>|<tags>
@@ -9,7 +11,8 @@ Args: property ids to evaluate (default: all registered).
 open WgslVerif
 
 def registry : List (String × (Ctx → Run → Verdict)) :=
-  [ ("C11", CheckC11.check) ]
+  [ ("C11", CheckC11.check), ("C03", CheckC03.check),
+    ("C20", fun c r => CheckC20.check c r r.visits) ]
 
 def decodeCase (s : Sexp) : Except String (Ctx × List Run) := do
   let fs ← match s with
@@ -34,9 +37,15 @@ def decodeCase (s : Sexp) : Except String (Ctx × List Run) := do
       | none => throw "ir missing"
   let runs ← match Sexp.field? "runs" rest with
     | some rs => rs.mapM fun
-      | .list [.atom "run", o, r, us] =>
+      | .list (.atom "run" :: o :: r :: us :: rest) =>
+        let visits : Option (Nat × Nat × Nat) := match rest with
+          | [.list [.atom "visits", a, b, c]] =>
+            match Sexp.asNat? a, Sexp.asNat? b, Sexp.asNat? c with
+            | some a, some b, some c => some (a, b, c)
+            | _, _, _ => none
+          | _ => none
         match Dec.options? o, DecOut.result? r, Sexp.asNat? us with
-        | some o, some r, some us => pure (⟨o, r, us⟩ : Run)
+        | some o, some r, some us => pure ({ opts := o, real := r, micros := us, visits := visits } : Run)
         | none, _, _ => throw "options"
         | _, none, _ => throw s!"result undecodable: {(r.render.take 300).toString}"
         | _, _, none => throw "micros"
